@@ -604,6 +604,28 @@ class FnLower:
             return self.into(ks[0], dest)
         if k == 'MaterializeTemporaryExpr':
             return self.into(ks[0], dest)
+        if k == 'CXXInheritedCtorInitExpr':
+            # inheriting constructor: the base-class constructor with the same parameter list is
+            # called with this constructor's own parameters
+            q = qt(n)
+            pnodes = [c for c in kids(self.f.node) if c.get('kind') == 'ParmVarDecl']
+            params, rest = fsig_params(self.f.node['type']['qualType'])
+            cn = self.L.class_cname(q)
+            args = [dest]
+            for p in pnodes:
+                kind_, nm = self.varmap[p['id']]
+                args.append(nm)
+            if not params:
+                fn = cn + '__ctor'
+            else:
+                fn = cn + '__ctor__' + sig_tag(params, qualify(split(q)[0]))
+            if self.L.rec_of_type(q) is not None:
+                raise Unsupported('inherited constructor of a repository base class')
+            self.externs.add(fn)
+            self.emit('%s(%s);' % (fn, ', '.join(args)))
+            if 'noexcept' not in rest:
+                self.exc_check()
+            return
         if k == 'CXXStdInitializerListExpr':
             raise Unsupported('std::initializer_list')
         raise Unsupported('into %s' % k)
